@@ -216,3 +216,11 @@ Proof.
   split; [vm_compute; reflexivity|]. split; [vm_compute; reflexivity|]. split; [vm_compute; reflexivity|].
   split; [vm_compute; reflexivity|]. split; [vm_compute; reflexivity|vm_compute; reflexivity].
 Qed.
+
+(* the address the layout assigns: a bank with 12-bit units at address 0x100; its second word is at 0x101 *)
+Lemma example_addresses :
+  let banks := [mk_bankw 0 0%Z 8 (Some 0) None; mk_bankw 1 256%Z 12 (Some 0) (Some 1200)] in
+  addresses_ok banks [mk_lspan (Some 0) 0 256%Z 0 None; mk_lspan (Some 12) 12 257%Z 0 None; mk_lspan (Some 1200) 0 356%Z 0 None] = true
+  /\ addresses_ok banks [mk_lspan (Some 12) 12 259%Z 0 None] = false       (* 12 >> 2 instead of 12 / 12 *)
+  /\ addresses_ok banks [mk_lspan (Some 12) 12 1%Z 0 None] = false.        (* the default bank is not usable *)
+Proof. vm_compute. repeat split; reflexivity. Qed.
